@@ -26,6 +26,16 @@ Definition all_sites := [S_scalar_try; S_scalar_collect; S_seq_try; S_seq_collec
   S_tag_try; S_tag_collect; S_cond_try; S_cond_collect; S_enum_try; S_enum_collect;
   S_post_struct_try; S_post_struct_collect; S_post_tuple_try; S_post_tuple_collect].
 
+Inductive adj := APositive | ANegative | ANonPositive | ANonNegative | AFinite | AEmpty | ANonEmpty.
+
+(* comparison operators of the stock conditions (pane.annotations) *)
+Inductive cmpop := OpGt | OpLt | OpGe | OpLe | OpEq | OpNe.
+Definition op_test (o : cmpop) (c : comparison) : bool :=
+  match o, c with
+  | OpGt, Gt | OpLt, Lt | OpGe, Gt | OpGe, Eq | OpLe, Lt | OpLe, Eq | OpEq, Eq | OpNe, Lt | OpNe, Gt => true
+  | _, _ => false
+  end.
+
 Definition all_kinds : list kind :=
   [KNone; KBool; KInt; KFloat; KComplex; KStr; KBytes; KByteArray; KList; KTuple; KDict; KSet; KFrozenSet;
    KEnum; KInst; KStd KDecimal; KStd KFraction; KStd KDatetime; KStd KDate; KStd KTime; KStd KPath; KStd KPattern; KOpaque].
